@@ -711,6 +711,11 @@ static int PolicyVerificationResult_create(KSI_PolicyVerificationResult **result
 		goto cleanup;
 	}
 
+	tmp->ref = 1;
+	tmp->ruleResults = NULL;
+	tmp->policyResults = NULL;
+	tmp->finalResult.statusMessage = NULL;
+
 	res = KSI_RuleVerificationResultList_new(&tmp->ruleResults);
 	if (res != KSI_OK) {
 		goto cleanup;
